@@ -83,9 +83,30 @@ def _reaches(bases, y, x):
     return False
 
 
+def _akind(rng):
+    """kind of a description; ~20 % are falsy Attribute / Method subclasses"""
+    return rng.choice(["attr", "attr", "attr", "attr", "meth", "meth", "meth", "meth", "fattr", "fmeth"])
+
+
+def _invkinds(rng, invs, n):
+    """invariants are functions, unhashable callable objects, or hashable callable objects that are all
+    equal to each other; sometimes every interface gets one of the latter (several per __iro__)"""
+    kinds = {}
+    if rng.random() < 0.3:
+        for i in range(1, n + 1):
+            k = 100 * i + 50
+            invs[i].append(k)
+            kinds[str(k)] = "eqhash"
+    for i in invs:
+        for k in invs[i]:
+            kinds.setdefault(str(k), rng.choice(["func", "func", "func", "unhash", "eqhash"]))
+    return kinds
+
+
 def _tagval(rng, v, p_none=0.25):
     """a tagged value: an int, or None (a defined value that must shadow inherited ones)"""
-    return None if rng.random() < p_none else v
+    r = rng.random()
+    return None if r < p_none else (0 if r < p_none + 0.08 else v)     # 0: a falsy but defined value
 
 
 def _gen_twin_case(rng):
@@ -125,12 +146,13 @@ def _gen_twin_case(rng):
     attrs, tags = {}, {}
     for i in range(1, n + 1):
         pa = 0.65 if i in (O, T) else 0.2
-        attrs[i] = [[nm, rng.choice(["attr", "meth"])] for nm in range(K_NAMES) if rng.random() < pa]
+        attrs[i] = [[nm, _akind(rng)] for nm in range(K_NAMES) if rng.random() < pa]
         tags[i] = [[t, _tagval(rng, 10 * i + t)] for t in range(1, K_TAGS + 1) if rng.random() < (0.5 if i in (O, T) else 0.2)]
     invs, failing = {}, []
     for i in range(1, n + 1):
         invs[i] = [100 * i + j for j in range(rng.choice([0, 0, 1]))]
-        failing += [v for v in invs[i] if rng.random() < 0.3]
+    invkind = _invkinds(rng, invs, n)
+    failing = [v for i in invs for v in invs[i] if rng.random() < 0.3]
     style = [rng.choice(["body", "call"]) for _ in range(n)]
     ops = []
     if rng.random() < 0.85:
@@ -159,7 +181,7 @@ def _gen_twin_case(rng):
         "n": n, "bases": [bases[i] for i in range(1, n + 1)], "attrs": [attrs[i] for i in range(1, n + 1)],
         "tags": [tags[i] for i in range(1, n + 1)], "style": style, "invs": [invs[i] for i in range(1, n + 1)],
         "failing": failing, "ops": ops, "names": list(range(K_NAMES)), "tagsU": list(range(0, K_TAGS + 1)),
-        "nodes": list(range(1, n + 1)) + [0], "pyname": pyname,
+        "nodes": list(range(1, n + 1)) + [0], "pyname": pyname, "invkind": invkind,
     }
 
 
@@ -190,13 +212,13 @@ def _gen_case(rng):
     for i in range(1, n + 1):
         for nm in range(K_NAMES):
             if rng.random() < 0.3:
-                attrs[i].append([nm, rng.choice(["attr", "meth"])])
+                attrs[i].append([nm, _akind(rng)])
         for t in range(1, K_TAGS + 1):
             if rng.random() < 0.3:
                 tags[i].append([t, _tagval(rng, 10 * i + t)])
     if diamond:
         # name 0 / tag 1: defined by the common ancestor, overridden on exactly one branch
-        for table, key, mk in ((attrs, 0, lambda i: [0, rng.choice(["attr", "meth"])]),
+        for table, key, mk in ((attrs, 0, lambda i: [0, _akind(rng)]),
                                (tags, 1, lambda i: [1, 10 * i + 1 if i == 1 else _tagval(rng, 10 * i + 1, 0.4)])):
             if table is tags and rng.random() < 0.4:
                 continue
@@ -211,7 +233,8 @@ def _gen_case(rng):
     for i in range(1, n + 1):
         k = rng.choice([0, 0, 1, 1, 2])
         invs[i] = [100 * i + j for j in range(k)]
-        failing += [v for v in invs[i] if rng.random() < pf]
+    invkind = _invkinds(rng, invs, n)
+    failing = [v for i in invs for v in invs[i] if rng.random() < pf]
     style = [rng.choice(["body", "call"]) for _ in range(n)]
 
     # ---- history
@@ -259,7 +282,7 @@ def _gen_case(rng):
         "n": n, "bases": [bases[i] for i in range(1, n + 1)], "attrs": [attrs[i] for i in range(1, n + 1)],
         "tags": [tags[i] for i in range(1, n + 1)], "style": style, "invs": [invs[i] for i in range(1, n + 1)],
         "failing": failing, "ops": ops, "names": list(range(K_NAMES)), "tagsU": list(range(0, K_TAGS + 1)),
-        "nodes": list(range(1, n + 1)) + [0],
+        "nodes": list(range(1, n + 1)) + [0], "invkind": invkind,
     }
 
 
